@@ -562,6 +562,32 @@ def rule_W_STAT(ctx, d, paths):
     ctx.ob('W-STAT', d.name + ' paths')
 
 
+def rule_W_STAT_STOREFAIL(ctx, d):
+    """W-STAT when the store fails: the cache object may be an archive itself, and `cache[key] = result` then raises for a result that cannot be
+    encoded.  A call that nevertheless completes (a handler took the failure) is still counted exactly once."""
+    if d.stats is None:
+        return
+    d.model.store_fail = True
+    try:
+        paths = d.wrapper_paths()
+    finally:
+        d.model.store_fail = False
+    n = 0
+    for o in paths:
+        if o.kind != RETURN or not any(e.kind == 'SETERR' and e.args[1] == C('StoreError') for e in o.st.events):
+            continue
+        n += 1
+        stats = [e for i, e in ev_of(o, 'STAT', 'STATSET', 'STATRESET')]
+        ok = len(stats) == 1 and stats[0].kind == 'STAT' and stats[0].args[0] == d.stats and stats[0].args[2] == C('+') and stats[0].args[3] == C(1)
+        ctx.ob('W-STAT', None, ok)
+        if not ok:
+            ctx.fail('W-STAT', wq(d), 'completed call with a failed store counted %d times' % len(stats),
+                     'when storing the result fails (the cache is an archive and the result cannot be encoded) and a handler lets the call complete, the '
+                     'statistics are changed %d times instead of once: hit + miss + load no longer equals the number of completed calls' % len(stats),
+                     where(d, o.line or d.wrapper_node.lineno), render_path(o))
+    ctx.ob('W-STAT', d.name + ' completed calls with a failed store (%d paths)' % n)
+
+
 IFACE_PARAMS = {'clear': ('keepstats',), 'info': (), 'archive': ('obj',), 'key': (), 'lookup': (), '__cache__': (), '__mask__': (), '__map__': ()}
 
 
@@ -835,6 +861,10 @@ def rule_W_IFACE(ctx, d):
 def rule_W_UPDATER(ctx, d):
     """a module-local replacement for functools.update_wrapper must leave wrapper.__wrapped__ == the decorated function"""
     fi = d.module.functions.get('update_wrapper') or d.module.functions.get('wraps')
+    umod = d.module
+    if getattr(d, 'updater', None) is not None:
+        umod, fi = d.updater
+        d.repo.consulted.add(umod.rel.split('/')[-1][:-3]) if hasattr(d.repo, 'consulted') else None
     if fi is None:
         ctx.ob('W-IFACE', d.name + ' uses functools.update_wrapper', d.module.imports.get('update_wrapper', '').startswith('functools') or 'update_wrapper' not in unparse(d.call_fi.node))
         return
@@ -848,7 +878,23 @@ def rule_W_UPDATER(ctx, d):
         if isinstance(n, ast.Call):
             fn = n.func
             if isinstance(fn, ast.Attribute) and fn.attr == 'update' and w in unparse(fn.value) and '__dict__' in unparse(fn.value):
-                generic.append(n.lineno)
+                # a filtered copy that leaves '__wrapped__' out cannot overwrite it
+                excl = False
+                for c in ast.walk(n):
+                    if isinstance(c, ast.Compare) and any(isinstance(o, ast.NotIn) for o in c.ops):
+                        for comp in c.comparators:
+                            src = umod.consts.get(comp.id) if isinstance(comp, ast.Name) else comp
+                            if src is not None and any(isinstance(x, ast.Constant) and x.value == '__wrapped__' for x in ast.walk(src)):
+                                excl = True
+                    if isinstance(c, ast.Compare) and any(isinstance(o, ast.NotEq) for o in c.ops) and any(
+                            isinstance(x, ast.Constant) and x.value == '__wrapped__' for x in ast.walk(c)):
+                        excl = True
+                if not excl:
+                    generic.append(n.lineno)
+            # functools.update_wrapper / wraps set wrapper.__wrapped__ = wrapped (last thing they do)
+            nm = fn.attr if isinstance(fn, ast.Attribute) else fn.id if isinstance(fn, ast.Name) else ''
+            if nm == 'update_wrapper' and len(n.args) >= 2 and unparse(n.args[0]) == w and unparse(n.args[1]) == f and nm not in umod.functions:
+                explicit.append(n.lineno)
             if isinstance(fn, ast.Name) and fn.id == 'setattr' and n.args and unparse(n.args[0]) == w:
                 if len(n.args) > 1 and isinstance(n.args[1], ast.Constant):
                     if n.args[1].value == '__wrapped__' and len(n.args) > 2 and unparse(n.args[2]) == f:
@@ -864,10 +910,10 @@ def rule_W_UPDATER(ctx, d):
     ok = not generic or (explicit and max(explicit) > max(generic))
     ctx.ob('W-IFACE', d.name + ' local update_wrapper', ok)
     if not ok:
-        ctx.fail('W-IFACE', '%s::%s' % (d.module.rel, fi.name), 'local update_wrapper can overwrite __wrapped__',
-                 'the module-local %s copies attributes of the decorated function into the wrapper (line %d) and does not re-assign wrapper.__wrapped__ = wrapped afterwards: '
+        ctx.fail('W-IFACE', '%s::%s' % (umod.rel, fi.name), 'local update_wrapper can overwrite __wrapped__',
+                 'the package\'s own %s copies attributes of the decorated function into the wrapper (line %d) and does not re-assign wrapper.__wrapped__ = wrapped afterwards: '
                  'when the decorated function itself carries a __wrapped__ (functools.wraps, a rounding decorator, another cache) the outer __wrapped__ points at the innermost function'
-                 % (fi.name, max(generic)), '%s:%d' % (d.module.rel, node.lineno))
+                 % (fi.name, max(generic)), '%s:%d' % (umod.rel, node.lineno))
 
 
 def rule_W_WRITERS(ctx, d):
@@ -1547,6 +1593,43 @@ def rule_W_RED(ctx, d):
         ctx.ob('W-RED', d.name, ok)
         if not ok:
             ctx.fail('W-RED', red.qual, '__reduce__: %s' % bad, '__reduce__ %s' % bad, where(d, red.node.lineno))
+
+
+PICKLE_HOOKS = ('__reduce__', '__reduce_ex__', '__getstate__', '__setstate__', '__copy__', '__deepcopy__', '__getnewargs__', '__getnewargs_ex__')
+CONTAINER_BASES = ('dict', 'list', 'set', 'deque', 'Counter', 'OrderedDict', 'defaultdict', 'odict')
+
+
+def rule_W_BKPICKLE(ctx, repo):
+    """W-LOCAL (bookkeeping travels whole): the recency queue, the reference / use counters and the statistics of a wrapper are plain containers, copied
+    and pickled element for element.  A container class of the decorator modules that customises pickling or copying hands the clone a different
+    bookkeeping state than the original has - the invariants between the structures (refcount[k] = occurrences of k in the queue) then fail in the clone,
+    and its later evictions differ."""
+    from .decorators import DECORATOR_MODULES
+    n = 0
+    for modname in DECORATOR_MODULES:
+        m = repo.mod(modname)
+        for ci in m.classes.values():
+            bases = []
+            for b in ci.node.bases:
+                nm = unparse(b)
+                nm = m.imports.get(nm, nm)          # from collections import deque as _deque
+                bases.append(nm.split('.')[-1])
+                # a class of this module that itself extends a container
+                oc = m.classes.get(nm) or getattr(m, 'classes_by_name', {}).get(nm)
+                if oc is not None:
+                    bases.extend(m.imports.get(unparse(x), unparse(x)).split('.')[-1] for x in oc.node.bases)
+            if not any(b in CONTAINER_BASES for b in bases):
+                continue
+            n += 1
+            own = getattr(ci, 'own_methods', None) or ci.methods
+            hooks = sorted(h for h in PICKLE_HOOKS if h in own)
+            ctx.ob('W-LOCAL', '%s::%s is pickled / copied as the plain container it extends' % (m.rel, ci.name), not hooks)
+            if hooks:
+                ctx.fail('W-LOCAL', ci.qual, 'container class customises %s' % ', '.join(hooks),
+                         'the bookkeeping container class %s defines %s: a pickled or copied wrapper receives what that hook returns instead of the container\'s contents, '
+                         'so the clone\'s queue / counters no longer agree with each other (e.g. refcount[k] versus the occurrences of k in the queue) and its later '
+                         'evictions differ from the original\'s' % (ci.name, ', '.join(hooks)), '%s:%d' % (m.rel, own[hooks[0]].node.lineno))
+    ctx.ob('W-LOCAL', 'container classes of the decorator modules examined', True, n=max(1, n))
 
 
 def rule_W_LOCAL(ctx, d):
